@@ -56,7 +56,7 @@ structure DState where
   sev : Option Sev := none    -- MeshConfig.serviceEntryVisibility (policies)
   nsLabels : List (String × List (String × String)) := []
   autoVis : List String := []  -- ids of the services whose visibility the policies resolve
-  ses : List (String × List String) := []   -- stream `sev`: ServiceEntries (namespace, hosts)
+  ses : List (String × List String × Option (List String)) := []   -- stream `sev`: ServiceEntries (namespace, hosts)
   mesh : Mesh := {}
   raw : List Svc := []        -- as declared
   built : Bool := false
@@ -166,6 +166,13 @@ def showScope (d : DState) (name : String) (ls : List ILW) (services : List Svc)
     "D=" ++ showDRs (selectDestinationRules d.mesh d.drIdx cfgNs services),
     -- `servicesByHostname`: one lookup per hostname of the scope (`servicesByHostname_is_index`)
     "I=" ++ showSvcs ((sortDedup (services.map (·.hostname))).filterMap fun h => services.find? (·.hostname == h)) false]
+
+/-- `Attributes.ExportTo` after conversion: the set of the written entries (serviceentry/conversion.go,
+    kube/conversion.go), printed sorted; `nil` = unset -/
+def showExportSet (e : Option (List String)) : String :=
+  match e with
+  | none => "nil"
+  | some l => let s := sortDedup (l.map enc); if s.isEmpty then "-" else "+".intercalate s
 
 def decSevVis : String → SEVis
   | "n" => .ns | "x" => .none | _ => .pub   -- "u" (UNSPECIFIED) and "p": Public
@@ -385,13 +392,19 @@ partial def stepD (d : DState) (toks : List String) : DState × String :=
               sev := if v.startsWith "v=" then some (decSev (v.drop 2).toString) else none }, "ok")
   | ["sevcfg", v, _ap] =>
     ({ d with sev := if v.startsWith "v=" then some (decSev (v.drop 2).toString) else none, ses := [], nsLabels := [] }, "ok")
-  | ["se", _name, ns, hosts] => ({ d with ses := d.ses ++ [(dec ns, decItems hosts ",")] }, "ok")
+  | ["se", _name, ns, hosts] => ({ d with ses := d.ses ++ [(dec ns, decItems hosts ",", none)] }, "ok")
+  | ["se", _name, ns, hosts, exp] =>
+    ({ d with ses := d.ses ++ [(dec ns, decItems hosts ",", if exp == "-" then none else some (decItems exp ","))] }, "ok")
+  | ["kconv", _ns, ann] =>
+    -- kube/conversion.go: the annotation split at commas, every item trimmed, collected into a set ("" = unset)
+    let a := dec ann
+    (d, if a == "" then "nil" else showExportSet (some ((a.splitOn ",").map fun it => it.trimAscii.toString)))
   | ["sevq"] =>
     -- every service of a ServiceEntry carries the visibility resolved for the namespace of the ServiceEntry
-    let items := d.ses.flatMap fun (ns, hosts) =>
+    let items := d.ses.flatMap fun (ns, hosts, exp) =>
       let v := match visibilityFor d.sev ((alookup ns d.nsLabels).getD []) with
         | .pub => "p" | .ns => "n" | .none => "x"
-      hosts.map fun h => enc h ++ "|" ++ enc ns ++ "|" ++ v
+      hosts.map fun h => enc h ++ "|" ++ enc ns ++ "|" ++ v ++ "|" ++ showExportSet exp
     let items := items.mergeSort (fun a b => !(b < a))
     (d, if items.isEmpty then "-" else ",".intercalate items)
   | ["nsl", ns, lbl] => ({ d with nsLabels := d.nsLabels ++ [(dec ns, (decLabels lbl).getD [])] }, "ok")
